@@ -87,3 +87,35 @@ def ref_root_zone(prof, zroot, zmin, th):
     dr = min(w_fc - max(w_act, 0.0), taw)
     above = max(0.0, w_act - w_fc)
     return dr, taw, above
+
+
+# ------------------------------------------------------------------------------------------------
+# Saxton & Rawls (2006) pedotransfer functions (Soil Sci. Soc. Am. J. 70:1569-1578, Table 1),
+# written from the paper: S, C as fractions, OM in % weight; moistures in m3/m3, Ks in mm/h
+# ------------------------------------------------------------------------------------------------
+def ref_saxton_rawls(sand_pct, clay_pct, om_pct):
+    S, C, OM = sand_pct / 100.0, clay_pct / 100.0, om_pct
+    t1500t = -0.024 * S + 0.487 * C + 0.006 * OM + 0.005 * S * OM - 0.013 * C * OM + 0.068 * S * C + 0.031
+    t1500 = t1500t + (0.14 * t1500t - 0.02)
+    t33t = -0.251 * S + 0.195 * C + 0.011 * OM + 0.006 * S * OM - 0.027 * C * OM + 0.452 * S * C + 0.299
+    t33 = t33t + (1.283 * t33t ** 2 - 0.374 * t33t - 0.015)
+    ts33t = 0.278 * S + 0.034 * C + 0.022 * OM - 0.018 * S * OM - 0.027 * C * OM - 0.584 * S * C + 0.078
+    ts33 = ts33t + (0.636 * ts33t - 0.107)
+    ts = t33 + ts33 - 0.097 * S + 0.043
+    lam = (np.log(t33) - np.log(t1500)) / (np.log(1500.0) - np.log(33.0))   # = 1/B
+    ks_mm_h = 1930.0 * (ts - t33) ** (3.0 - lam)
+    return dict(wp=t1500, fc=t33, sat=ts, ksat=ks_mm_h * 24.0)
+
+
+# built-in soil types as documented (wilting point, field capacity, saturation, Ksat mm/day) per layer
+BUILTIN_SOIL_TABLE = {
+    "Clay": ([(None, 0.39, 0.54, 0.55, 35)], 77), "ClayLoam": ([(None, 0.23, 0.39, 0.50, 125)], 72),
+    "Default": ([(None, 0.10, 0.30, 0.50, 500)], 61), "Loam": ([(None, 0.15, 0.31, 0.46, 500)], 61),
+    "LoamySand": ([(None, 0.08, 0.16, 0.38, 2200)], 46), "Sand": ([(None, 0.06, 0.13, 0.36, 3000)], 46),
+    "SandyClay": ([(None, 0.27, 0.39, 0.50, 35)], 77), "SandyClayLoam": ([(None, 0.20, 0.32, 0.47, 225)], 72),
+    "SandyLoam": ([(None, 0.10, 0.22, 0.41, 1200)], 46), "Silt": ([(None, 0.09, 0.33, 0.43, 500)], 61),
+    "SiltClayLoam": ([(None, 0.23, 0.44, 0.52, 150)], 72), "SiltLoam": ([(None, 0.13, 0.33, 0.46, 575)], 61),
+    "SiltClay": ([(None, 0.32, 0.50, 0.54, 100)], 72),
+    "Paddy": ([(0.5, 0.32, 0.50, 0.54, 15), (1.5, 0.39, 0.54, 0.55, 2)], 77),
+    "ac_TunisLocal": ([(0.3, 0.24, 0.40, 0.50, 155), (1.7, 0.11, 0.33, 0.46, 500)], 72),
+}
